@@ -3,7 +3,8 @@
 # Confirms the seeded change in a scratch worktree: demo passes on the clean tree, fails with the patch, the repo
 # suite passes with the patch; then runs ./check <ID> against the patched tree.  Stores everything under seeded/<ID>-<k>/.
 ID=$1; K=$2; TIER=${3:-quick}
-SRC=/tmp/seed/$ID/out/$K
+SRC=${SEED_BASE:-/tmp/seed}/$ID/out/$K
+NAME=${SEED_NAME:-$K}
 [ -f $SRC/patch.diff ] || { echo "no patch at $SRC"; exit 3; }
 S=$(mktemp -d /tmp/sv.XXXXXX)
 git -C /repo worktree add -q --detach "$S/r" HEAD >/dev/null 2>&1
@@ -15,7 +16,7 @@ PYTHONPATH="$S/r" /venv/bin/python $SRC/demo.py > "$S/demo.out" 2>&1; PATCHED=$?
 /verif/tools/repotest.sh "$S/r" > "$S/tests.out" 2>&1; TESTS=$?
 cd /verif
 OUT=$(VERIF_REPO="$S/r" VERIF_EVIDENCE_DIR="$S/ev" ./check "$ID" "$TIER" 2>&1); RC=$?
-DEST=/verif/seeded/$ID-$K
+DEST=/verif/seeded/$ID-$NAME
 mkdir -p $DEST
 cp $SRC/patch.diff $SRC/demo.py $DEST/
 FAIL=$(echo "$OUT" | grep -m1 "failure:" | cut -c1-400)
